@@ -445,49 +445,29 @@ pub fn expand_glob(tokens: &mut types::Tokens) {
 }
 
 fn expand_one_env(sh: &Shell, token: &str) -> String {
-    // do not combine these two into one: `\{?..\}?`,
-    // otherwize `}` in `{print $NF}` would gone.
-    let re1 = Regex::new(r"^(.*?)\$([A-Za-z0-9_]+|\$|\?)(.*)$").unwrap();
-    let re2 = Regex::new(r"(.*?)\$\{([A-Za-z0-9_]+|\$|\?)\}(.*)$").unwrap();
-    if !re1.is_match(token) && !re2.is_match(token) {
-        return token.to_string();
-    }
-
-    let mut result = String::new();
-    let match_re1 = re1.is_match(token);
-    let match_re2 = re2.is_match(token);
-    if !match_re1 && !match_re2 {
-        return token.to_string();
-    }
-
-    let cap_results = if match_re1 {
-        re1.captures_iter(token)
-    } else {
-        re2.captures_iter(token)
-    };
-
-    for cap in cap_results {
-        let head = cap[1].to_string();
-        let tail = cap[3].to_string();
-        let key = cap[2].to_string();
+    // one pass, left to right, over the references of `token`: what a
+    // value contains is never looked at again.  `${NAME}` comes first in
+    // the alternation so that the braces go with it, while the `}` of
+    // `{print $NF}` stays.
+    let re = Regex::new(r"\$\{([a-zA-Z_][a-zA-Z0-9_]*|\$|\?)\}|\$([a-zA-Z_][a-zA-Z0-9_]*|\$|\?)").unwrap();
+    let result = re.replace_all(token, |cap: &regex::Captures| {
+        let key = match cap.get(1).or_else(|| cap.get(2)) {
+            Some(x) => x.as_str(),
+            None => "",
+        };
         if key == "?" {
-            result.push_str(format!("{}{}", head, sh.previous_status).as_str());
+            format!("{}", sh.previous_status)
         } else if key == "$" {
-            unsafe {
-                let val = libc::getpid();
-                result.push_str(format!("{}{}", head, val).as_str());
-            }
-        } else if let Ok(val) = env::var(&key) {
-            result.push_str(format!("{}{}", head, val).as_str());
-        } else if let Some(val) = sh.get_env(&key) {
-            result.push_str(format!("{}{}", head, val).as_str());
+            unsafe { format!("{}", libc::getpid()) }
+        } else if let Ok(val) = env::var(key) {
+            val
+        } else if let Some(val) = sh.get_env(key) {
+            val
         } else {
-            result.push_str(&head);
+            String::new()
         }
-        result.push_str(&tail);
-    }
-
-    result
+    });
+    result.to_string()
 }
 
 fn need_expand_brace(line: &str) -> bool {
@@ -833,16 +813,7 @@ pub fn expand_env(sh: &Shell, tokens: &mut types::Tokens) {
             continue;
         }
 
-        let mut _token = token.clone();
-        while env_in_token(&_token) {
-            let expanded = expand_one_env(sh, &_token);
-            if expanded == _token {
-                // nothing expand_one_env can rewrite, e.g. an unterminated `${FOO`
-                break;
-            }
-            _token = expanded;
-        }
-        buff.push((idx, _token));
+        buff.push((idx, expand_one_env(sh, token)));
         idx += 1;
     }
 
